@@ -378,6 +378,7 @@ func checkC05(cx *Ctx, r *Report) {
 			}
 		}
 	}
+	cx.checkVerifierArguments(r)
 	r.Min("R-VERIFIER", 7)
 	// ValidatePost validates the element it was given (the document root), not an element found by searching for a signature
 	if vp := w.Func("signature.ValidatePost"); vp != nil {
@@ -697,6 +698,41 @@ func (cx *Ctx) verifierEval(fn *ssa.Function, isCrypto func(ssa.CallInstruction)
 		}
 	}
 	return "ok", w.FnPos(fn), fmt.Sprintf("nil only as / under the verdict of %d verifying call(s)", len(vcalls))
+}
+
+// checkVerifierArguments (R-VFG): inside signature.ValidateRedirect the value checked as signature is the signature
+// handed in, and the digest checked is a hash result - not the other way round (a swapped pair makes every correctly
+// signed request fail, and would let a crafted "signature" equal to a digest be compared with itself).
+func (cx *Ctx) checkVerifierArguments(r *Report) {
+	w := cx.W
+	vr := w.Func("signature.ValidateRedirect")
+	if vr == nil {
+		r.Fail("R-VFG", "ValidateRedirect:arguments", "", "anchor not found")
+		return
+	}
+	lvf := cx.newVFlow("verifier-args", vr)
+	sig := "param:signature.ValidateRedirect/#2"
+	sum := "ext:iface:hash.Hash.Sum#0"
+	n := 0
+	for _, a := range []struct {
+		key   string
+		match func(ssa.CallInstruction) bool
+		idx   int
+		allow []string
+	}{
+		{"rsa:signature", matchCallee("crypto/rsa.VerifyPKCS1v15"), 3, []string{sig}},
+		{"rsa:digest", matchCallee("crypto/rsa.VerifyPKCS1v15"), 2, []string{sum, "ext:crypto/sha*", "const:zero"}},
+		{"dsa:signature", matchCallee("encoding/asn1.Unmarshal"), 0, []string{sig}},
+		{"dsa:digest", matchCallee("crypto/dsa.Verify"), 1, []string{sum, "ext:crypto/sha*", "const:zero"}},
+	} {
+		ls, sites := lvf.CallArgSources(a.match, a.idx)
+		if len(sites) == 0 {
+			continue
+		}
+		n++
+		r.checkSources("R-VFG", "ValidateRedirect:"+a.key, w.InstrPos(sites[0]), ls, a.allow, nil, false)
+	}
+	r.Check(n >= 2, "R-VFG", "ValidateRedirect:#arguments", w.FnPos(vr), fmt.Sprintf("%d verifier argument positions checked", n), "the cryptographic verification calls of ValidateRedirect were not found")
 }
 
 // checkSigningCertsOnly: every certificate GetCertsFromKeyDescriptors can return was appended on a path that
